@@ -31,6 +31,8 @@ QUERY_SOURCES = {
 }
 QUERY_FNS = ("service_daemon::Zeroconf::send_query", "service_daemon::Zeroconf::send_query_vec", "service_daemon::Zeroconf::send_query_on_intf")
 
+REFRESH_DUE = ("DnsCache::refresh_due_ptr", "DnsCache::refresh_due_srv_txt", "DnsCache::refresh_due_hosts", "DnsCache::refresh_due_hostname_resolutions")
+
 HANDLERS = [("Zeroconf::exec_command_browse", "Browse", 1), ("Zeroconf::exec_command_resolve_hostname", "ResolveHostname", 1)]
 
 
@@ -153,6 +155,12 @@ def clause_d(ctx, P):
             n += 1
             seen[g.name] = seen.get(g.name, 0) + 1
             cls = QUERY_SOURCES.get(g.name.split("::{closure")[0])
+            if cls is None:
+                # a helper that is not in the table: a refresh source if the query is sent only for entries that a
+                # DnsCache::refresh_due_* call returned
+                e_any = guard_edges(P, g, lambda atom, outcome, bb: has_call(atom[1] if atom[0] in ("variant", "int") else atom, *REFRESH_DUE))
+                if e_any and must_pass_edges(g, cb, e_any):
+                    cls = "refresh (driven by refresh_due_*)"
             ctx.ob("C19d.query-source-classified", "%s|%s#%d" % (g.name, q.split("::")[-1], seen[g.name]), cls is not None, g.loc(cb),
                    ("query source class: %s" % cls) if cls else
                    "a query is sent from %s, which is not one of the sources the statement allows (schedule, refresh, follow-up, new interface, verify)" % g.name)
